@@ -41,7 +41,12 @@ MANIFEST = dict(
           "calls (an ordering comparison in both operand orders, ==, a free key, a logical key, the zero exemption, the same key / call "
           "shape on the unit with itself, with a commensurable unit, with a same-spelling unit of another registry, a conversion, a "
           "merging function), so that anything the library remembers between calls is in place; all obligations of the call under "
-          "test are unchanged."),
+          "test are unchanged. Three more discrete axes: OPEN OPERAND SLOT - an optional value operand left open (np.clip with one bound "
+          "None / omitted, in every positional / keyword spelling, also with out=) next to one that is given; OPTIONAL VALUE OPERANDS - "
+          "np.pad constant_values / end_values, np.diff prepend / append, np.ediff1d to_begin / to_end, np.isclose / np.allclose; "
+          "NEAR-MISS DIMENSIONS - a catalogue written as exponent vectors around `length` (one exponent moved by a fraction, negated, "
+          "doubled, permuted, one more base dimension for every base dimension) walked over every ordered pair by all 18 keys, the 4 "
+          "conversion entry points and __setitem__."),
     design="DESIGN.md section 4 C01",
     technique="symbolic execution of the real Python code over z3 real terms; SMT obligations per path; counterexample replay")
 EXPLANATION = (
@@ -66,7 +71,16 @@ EXPLANATION = (
     "hash-equal Unit objects; the engine restores module-level state only between paths). The earlier calls are chosen so that "
     "their verdict differs from that of the call under test on the same unit pair (ordering comparisons and free keys accept what "
     "add/maximum/... must refuse) or so that they succeed on a pair that is spelled the same; their element values are pinned "
-    "numerals, the unit scales stay symbols, and the obligations of the call under test are the unchanged ones above."
+    "numerals, the unit scales stay symbols, and the obligations of the call under test are the unchanged ones above. "
+    "An optional value operand may be left open: np.clip is run with one bound None or omitted in every spelling of NumPy's signature "
+    "(old and new parameter names, out= positional / keyword / the clipped array itself) - the operands combined are then the array and "
+    "the bound that is given, and the same obligations apply. The optional parameters whose VALUES enter the result (np.pad "
+    "constant_values / end_values, np.diff prepend / append, np.ediff1d to_begin / to_end) and the operands of np.isclose / np.allclose "
+    "are operands of the oracle like the main ones (bare values are read in the array's unit). Whether two dimensions are the same "
+    "must be decided on the whole exponent vector: besides the registry's catalogue, a catalogue of NEAR-MISS dimensions written in "
+    "this file as exponent vectors (the oracle's identity of a dimension is its vector) is walked over every ordered pair - vectors "
+    "that agree after truncation / rounding / negation / sorting / summing of the exponents, or in all but one base dimension - with "
+    "symbolic scales on both sides."
 )
 BOUNDS = {
     "quick": "18 commensurability-requiring binary keys of _ufunc_registry x forms {call, call with where= / casting= / subok= spelled out, operator, out=quantity, out=ndarray, outer, at, "
@@ -118,7 +132,8 @@ BOUNDS = {
                 "first-operand kinds x 16 second-operand kinds; call history: all 18 keys x 15 histories x 20 operand-kind pairs (call, "
                 "operator, out=, outer; (2,) arrays with in-place / at / out= after the two main histories for the in-place keys, maximum, "
                 "less, hypot), array functions x 8 histories x 8 pairs (other spellings after 3 histories on one pair), __setitem__ x 7 "
-                "histories x 7 pairs, conversions x 9 histories x 10 pairs",
+                "histories x 7 pairs, conversions x 9 histories x 10 pairs; near-miss dimensions: 43 exponent vectors (further "
+                "fractions 2/3, 5/2, -3/2, half powers of every other base dimension), call and operator form",
 }
 OUTSIDE = ("IEEE rounding/overflow/nan (A1): a path on which NumPy's loop divides by zero is dropped; integer/complex payloads and the "
            "integer-only ufuncs (bitwise_*, shifts, ldexp); power/logaddexp/logaddexp2/logical_xor are classified (no demand) but not "
@@ -143,6 +158,11 @@ OUTSIDE = ("IEEE rounding/overflow/nan (A1): a path on which NumPy's loop divide
            "engine's @after variants build a new registry). Call spellings: the out= / dtype= / casting= parameters of the merging "
            "functions are only passed as None / default (an out= array is a further operand that the property does not name); "
            "np.where has positional-only operands (one spelling + list condition). "
+           "np.interp's left= / right= fill values are NOT decided (the A8 kernel model hands a call with a unit-carrying argument to "
+           "real NumPy, which refuses the object payload): by hand on plain unyt np.interp(x, xp, fp_m, left=5 s) returns [5, ...] m - "
+           "reported as a finding, not part of the claim; np.digitize and other functions unyt has no handler for; out= of np.take / "
+           "np.around; an out= tuple with a None member (np.divmod(a, b, out=(None, o)) raises AttributeError in unyt); float-valued "
+           "dimension exponents (sympy Float) in the near-miss catalogue. "
            "The shape of the ==/!= constant answer is not checked here (C06/C16).")
 
 NAMES = ["xa", "xb", "xc", "xp", "xt"]
@@ -250,6 +270,8 @@ L_COPYLIST = "copyto stores a list of quantities ignoring their units"
 L_METHOD = "ndarray method not overridden by unyt combines incommensurable operands"
 L_SETNEST = "__setitem__ stores a nested sequence of quantities ignoring their units"
 L_CTOR = "unyt_array(sequence) drops the units of the quantities in it"
+L_CLOSE = "isclose/allclose read a dimensionless quantity in the unit of the other operand"
+L_CLOSELIST = "isclose/allclose read a sequence of quantities as bare numbers"
 L_NEST = "a nested sequence of quantities is read as bare numbers by a binary ufunc"
 
 
@@ -830,7 +852,50 @@ def _dname(i):
     return chr(97 + i // 26) + chr(97 + i % 26)
 
 
-def make_dims_case(name, cat, with_offsets):
+# NEAR-MISS DIMENSIONS: the registry's catalogue holds the dimensions that occur in practice; a commensurability test that is
+# computed from a SUMMARY of the dimension (a rounded / truncated / absolute / sorted / summed exponent vector, a vector that skips
+# a base dimension, a hash, the set of symbols ...) is wrong only for pairs that agree in that summary. This catalogue is written
+# here as explicit exponent vectors over the base dimensions (the oracle's identity of a dimension IS its vector) and walks the
+# neighbourhood of `length`: one exponent moved by a fraction (1/2, 3/2, 1/3, 2/3, 5/2: truncation, rounding, floor), negated,
+# doubled; the same exponents in other slots (permutations, equal exponent sum / product); one further base dimension to the
+# power 1, 1/2, -1/2 for EVERY base dimension (a skipped slot); float-valued exponents are outside (sympy Rationals only).
+NEAR_BASE = ("mass", "length", "time", "temperature", "angle", "current_mks", "luminous_intensity", "logarithmic")
+
+
+def near_catalogue(mods, tier):
+    from fractions import Fraction as F
+    import sympy
+    D = mods["unyt"].dimensions
+    vecs = [{}, {"length": 1}]
+    quick = tier == "quick"
+    for e in (F(1, 2), F(3, 2), F(1, 3), 2, -1, F(-1, 2)) + (() if quick else (F(2, 3), F(5, 2), F(-3, 2))):
+        vecs.append({"length": e})
+    vecs += [{"time": 1}, {"length": 1, "time": 1}, {"length": 1, "time": -1}, {"length": 2, "time": 1}, {"length": 1, "time": 2},
+             {"length": F(1, 2), "time": F(1, 2)}, {"mass": F(1, 2), "length": F(3, 2), "time": -1}, {"time": -1}]
+    if not quick:
+        vecs += [{"length": -1, "time": 1}, {"length": 2, "time": -1}, {"length": F(3, 2), "time": F(-1, 2)},
+                 {"mass": F(1, 2), "length": F(-1, 2), "time": -1}]
+    for b in NEAR_BASE:
+        if b != "length":
+            vecs.append({"length": 1, b: 1})
+            if not quick or b == "logarithmic":
+                vecs += [{"length": 1, b: F(1, 2)}, {"length": 1, b: F(-1, 2)}]
+    out, seen = [], set()
+    for v in vecs:
+        key = tuple(F(v.get(b, 0)) for b in NEAR_BASE)
+        if key in seen:
+            continue
+        seen.add(key)
+        expr = sympy.Integer(1)
+        for b in NEAR_BASE:
+            if v.get(b, 0):
+                expr = expr * getattr(D, b) ** sympy.Rational(F(v[b]).numerator, F(v[b]).denominator)
+        name = "*".join(f"{b}^{F(v[b])}" for b in NEAR_BASE if v.get(b, 0)) or "dimensionless"
+        out.append((name, D.dimensionless if not v else expr))
+    return out
+
+
+def make_dims_case(name, cat, with_offsets, label=None, ops=True):
     """one left unit per catalogue dimension (all of scale xa_s), one right unit per dimension (all of scale xc_s): every
     ordered pair of dimensions, in call and operator form. Temperature units optionally carry symbolic offsets."""
     def h(ctx):
@@ -862,10 +927,10 @@ def make_dims_case(name, cat, with_offsets):
                     continue  # the offset variant differs from the linear one only where a temperature unit takes part
                 tag = f"{name}[{a.dim}|{b.dim}]"
                 judge(ctx, W, tag + ".call", name, xcall(uf, a.value, b.value), [a, b], "require", known)
-                if name in OPERATOR:
+                if name in OPERATOR and ops:
                     judge(ctx, W, tag + ".op", name, xcall(uf if sym_standin else OPERATOR[name], a.value, b.value), [a, b], "require", known)
         W.flush()
-    return Case(f"C01/dims/{name}/{'affineT' if with_offsets else 'linear'}", h,
+    return Case(f"C01/dims/{name}/{label or ('affineT' if with_offsets else 'linear')}", h,
                 bounds=f"{len(cat)}x{len(cat)} ordered dimension pairs" if not with_offsets else f"temperature (symbolic offsets) x {len(cat)} dimensions, both orders",
                 budget_s=3000, max_paths=2000, weight=30, conform=False)
 
@@ -940,6 +1005,21 @@ AF = {
     "clip": ("assign", lambda np_, x0, x1: np_.clip(x0, x1, x1), [((2,), ()), ((2,), (2,))]),
     "clip_max": ("assign", lambda np_, x0, x1: np_.clip(x0, x0.min() if hasattr(x0, "units") else None, x1), [((2,), ())]),
     "insert": ("assign", lambda np_, x0, x1: np_.insert(x0, 0, x1), [((2,), ()), ((2,), (2,))]),
+    # OPEN OPERAND SLOT: an optional value operand left open (None / omitted) next to one that is given - the operands the call
+    # combines are the array and the bound that IS given
+    "clip_hi_none": ("assign", lambda np_, x0, x1: np_.clip(x0, x1, None), [((2,), ()), ((2,), (2,))]),
+    "clip_lo_none": ("assign", lambda np_, x0, x1: np_.clip(x0, None, x1), [((2,), ()), ((2,), (2,))]),
+    # OPTIONAL VALUE OPERANDS: parameters of a handled function, beyond its main operands, whose VALUES end up in (or are compared
+    # with) the values of the array: padding values, values put in front of / behind the array before differencing, the fill
+    # values of an interpolation, the operands of isclose / allclose. A bare value is read in the array's unit (assignment reading).
+    "pad_const": ("assign", lambda np_, x0, x1: np_.pad(x0, 1, constant_values=x1), [((2,), ())]),
+    "pad_end": ("assign", lambda np_, x0, x1: np_.pad(x0, 1, "linear_ramp", end_values=x1), [((2,), ())]),
+    "diff_prepend": ("assign", lambda np_, x0, x1: np_.diff(x0, prepend=x1), [((2,), ()), ((2,), (2,))]),
+    "diff_append": ("assign", lambda np_, x0, x1: np_.diff(x0, append=x1), [((2,), ()), ((2,), (2,))]),
+    "ediff1d_end": ("assign", lambda np_, x0, x1: np_.ediff1d(x0, to_end=x1), [((2,), ()), ((2,), (2,))]),
+    "ediff1d_begin": ("assign", lambda np_, x0, x1: np_.ediff1d(x0, to_begin=x1), [((2,), ()), ((2,), (2,))]),
+    "isclose": ("assign", lambda np_, x0, x1: np_.isclose(x0, x1), [((2,), ()), ((2,), (2,))]),
+    "allclose": ("assign", lambda np_, x0, x1: np_.allclose(x0, x1), [((2,), (2,))]),
 }
 # functions that write into their first argument (run on a copy)
 AF_TARGET = {
@@ -950,6 +1030,10 @@ AF_TARGET = {
     "fill_diagonal": ("assign", lambda np_, c, x1: np_.fill_diagonal(c, x1), [((2, 2), ())]),
     "copyto": ("assign", lambda np_, c, x1: np_.copyto(c, x1), [((2,), ()), ((2,), (2,))]),
     "copyto_where": ("assign", lambda np_, c, x1: np_.copyto(c, x1, where=_mask(2)), [((2,), (2,))]),
+    # clip writing its answer into the clipped array itself (out= is the first operand: no further operand), both / one bound given
+    "clip_out": ("assign", lambda np_, c, x1: np_.clip(c, x1, x1, out=c), [((2,), ())]),
+    "clip_out_lo_none": ("assign", lambda np_, c, x1: np_.clip(c, None, x1, out=c), [((2,), ()), ((2,), (2,))]),
+    "clip_out_hi_none": ("assign", lambda np_, c, x1: np_.clip(c, x1, None, c), [((2,), ())]),
 }
 AF_KNOWN = {"copyto": L_COPYTO}  # the masked form converts or raises since 3bb224c; the unmasked one still relabels dst
 AF_K0 = QUANTITY_KINDS + ["barray"]
@@ -1008,6 +1092,29 @@ AF_SPELL = {
              "out_pos": lambda np_, x0, x1: np_.clip(x0, x1, x1, None)},
     "clip_max": {"a_max_kw": lambda np_, x0, x1: np_.clip(x0, x0.min() if hasattr(x0, "units") else None, a_max=x1),
                  "max_kw": lambda np_, x0, x1: np_.clip(x0, max=x1)},
+    # every way of leaving one bound open: None positionally / by keyword (old and new parameter names), the bound omitted
+    "clip_hi_none": {"kw_none": lambda np_, x0, x1: np_.clip(x0, a_min=x1, a_max=None),
+                     "omitted_a_min_kw": lambda np_, x0, x1: np_.clip(x0, a_min=x1),
+                     "omitted_min_kw": lambda np_, x0, x1: np_.clip(x0, min=x1),
+                     "omitted_pos": lambda np_, x0, x1: np_.clip(x0, x1),
+                     "min_kw_max_none": lambda np_, x0, x1: np_.clip(x0, min=x1, max=None),
+                     "out_pos": lambda np_, x0, x1: np_.clip(x0, x1, None, None)},
+    "clip_lo_none": {"kw_none": lambda np_, x0, x1: np_.clip(x0, a_min=None, a_max=x1),
+                     "omitted_a_max_kw": lambda np_, x0, x1: np_.clip(x0, a_max=x1),
+                     "omitted_max_kw": lambda np_, x0, x1: np_.clip(x0, max=x1),
+                     "max_kw_min_none": lambda np_, x0, x1: np_.clip(x0, min=None, max=x1),
+                     "all_kw": lambda np_, x0, x1: np_.clip(a=x0, a_min=None, a_max=x1, out=None)},
+    "clip_out_lo_none": {"omitted_max_kw": lambda np_, c, x1: np_.clip(c, max=x1, out=c),
+                         "kw_none": lambda np_, c, x1: np_.clip(c, a_min=None, a_max=x1, out=c)},
+    "pad_const": {"mode_pos": lambda np_, x0, x1: np_.pad(x0, 1, "constant", constant_values=x1),
+                  "kw_pair": lambda np_, x0, x1: np_.pad(array=x0, pad_width=(1, 1), mode="constant", constant_values=(x1, x1))},
+    "diff_prepend": {"pos": lambda np_, x0, x1: np_.diff(x0, 1, -1, x1),
+                     "kw_all": lambda np_, x0, x1: np_.diff(a=x0, n=1, axis=-1, prepend=x1)},
+    "diff_append": {"pos_prepend_open": lambda np_, x0, x1: np_.diff(x0, 1, -1, np._NoValue, x1),
+                    "both": lambda np_, x0, x1: np_.diff(x0, prepend=x0[:1], append=x1)},
+    "ediff1d_end": {"pos": lambda np_, x0, x1: np_.ediff1d(x0, x1), "begin_none": lambda np_, x0, x1: np_.ediff1d(x0, to_end=x1, to_begin=None)},
+    "ediff1d_begin": {"pos_end_open": lambda np_, x0, x1: np_.ediff1d(x0, None, x1), "kw_all": lambda np_, x0, x1: np_.ediff1d(ary=x0, to_begin=x1)},
+    "isclose": {"kw": lambda np_, x0, x1: np_.isclose(a=x0, b=x1), "tol_pos": lambda np_, x0, x1: np_.isclose(x0, x1, 1e-5, 1e-8)},
     "insert": {"values_kw": lambda np_, x0, x1: np_.insert(x0, 0, values=x1),
                "kw": lambda np_, x0, x1: np_.insert(arr=x0, obj=0, values=x1),
                "axis_pos": lambda np_, x0, x1: np_.insert(x0, 0, x1, 0)},
@@ -1090,6 +1197,18 @@ def make_af_case(fname, k0, k1, shapes, dims, spell=None, history=()):
         tgt = a.copy("target") if target else a
         res = xcall(fn, np, tgt.value, b.value)
         known = L_COPYLIST if (fname.startswith("copyto") and k1 in QLIST_KINDS) else AF_KNOWN.get(fname)
+        if fname in ("isclose", "allclose") and res[0] == "ok" and not no_demand([tgt, b], klass):
+            dl = [o for o in (tgt, b) if o.dim == "dimensionless" and is_unyt(ctx, o.value)]
+            if k1 in QLIST_KINDS:
+                # known defect: only `.units` of an operand is looked at; a python sequence of quantities has none and is read as
+                # bare numbers in the other operand's unit (same hole as L_COPYLIST)
+                known = L_CLOSELIST
+            elif dl:
+                # known defect: a quantity whose unit EQUALS `dimensionless` (scale 1 up to unyt's 1e-9 band) is treated like a bare
+                # number and read in the other operand's unit. Must hold even so: no other dimensionless unit is let through
+                known = L_CLOSE
+                ctx.require(f"{fname}({k0},{k1}): returned normally for incommensurable operands beyond the known defect",
+                            And(*[And(o.value.units.base_value >= 1 - 2e-9, o.value.units.base_value <= 1 + 2e-9) for o in dl]))
         judge(ctx, W, f"{fname}({k0},{k1})", fname, res, [tgt, b], klass, known)
         W.flush()
     cid = f"C01/af/{fname}/{k0}+{k1}/{shstr(s0)}_{shstr(s1)}" + (f"/as-{spell}" if spell else "") + (f"/after-{hist_id(history)}" if history else "")
@@ -1209,7 +1328,7 @@ CONVERT_SPELL = {
 }
 
 
-def make_convert_case(entry, cat, as_string):
+def make_convert_case(entry, cat, as_string, label=""):
     """q (unit of dimension i, scale xa_s) converted to the unit of dimension j (scale xc_s), every ordered pair"""
     def h(ctx):
         unyt = ctx.mods["unyt"]
@@ -1235,7 +1354,7 @@ def make_convert_case(entry, cat, as_string):
                     ctx.require(f"{tag}: target unit unchanged after raise",
                                 And(now[0] == facts[0], now[1] == facts[1], exact_eq(now[2], facts[2]), exact_eq(now[3], facts[3])))
         W.flush()
-    return Case(f"C01/convert/{entry}/{'str' if as_string else 'unit'}", h, bounds=f"{len(cat)}x{len(cat)} ordered dimension pairs",
+    return Case(f"C01/convert/{entry}/{label}{'str' if as_string else 'unit'}", h, bounds=f"{len(cat)}x{len(cat)} ordered dimension pairs",
                 budget_s=3000, max_paths=2000, weight=20, conform=False)
 
 
@@ -1286,6 +1405,34 @@ def make_convert_twin_case(entry, dims):
                             And(now[0] == facts[0], now[1] == facts[1], exact_eq(now[2], facts[2]), exact_eq(now[3], facts[3])))
         W.flush()
     return Case(f"C01/convert/{entry}/twin", h, bounds="same symbol in two registries / re-dimensioned symbol", budget_s=600, weight=3)
+
+
+def make_setitem_dims_case(cat, form):
+    """a[0] = q / a[:] = q for every ordered pair of dimensions of the catalogue (target unit of scale xa_s, value of scale xc_s)"""
+    def h(ctx):
+        reg = ctx.registry([])
+        sa, sc = ctx.real("xa_s", pos=True), ctx.real("xc_s", pos=True)
+        W = World.__new__(World)
+        W.ctx, W.reg, W.deferred = ctx, reg, {}
+        for i, (dn, Dm) in enumerate(cat):
+            ctx.add_row(reg, "xl" + _dname(i), Dm, sa)
+            ctx.add_row(reg, "xr" + _dname(i), Dm, sc)
+        for i, (dn, _) in enumerate(cat):
+            for j, (dm, _) in enumerate(cat):
+                if True:
+                    t = ctx.quantity(W.vals("p", (2,)), "xl" + _dname(i), reg)
+                    v = ctx.quantity(W.vals("q", ()), "xr" + _dname(j), reg)
+                    a = Opd("target", t, dn, elements(t.d), [t], False, (2,))
+                    b = Opd("value", v, dm, elements(v.d), [v], False, ())
+                    known = L_SETD if (dm == "dimensionless" and dn != "dimensionless") else None
+                    res = xcall(SETITEM[form][0], t, v)
+                    if known and res[0] == "ok":
+                        ctx.require(f"setitem.{form}[{dn}<{dm}]: returned normally for incommensurable operands beyond the known defect",
+                                    And(sc >= 1 - 2e-9, sc <= 1 + 2e-9))
+                    judge(ctx, W, f"setitem.{form}[{dn}<{dm}]", "setitem", res, [a, b], "assign", known)
+        W.flush()
+    return Case(f"C01/setitem/dims/near-{form}", h, bounds=f"{len(cat)}x{len(cat)} ordered dimension pairs", budget_s=3000, max_paths=2000,
+                weight=30, conform=False)
 
 
 def make_unit_addsub_case(cat):
@@ -1410,6 +1557,9 @@ def cases(tier, mods):
     check_names(mods, ["xl" + _dname(i) for i in range(len(cat))] + ["xr" + _dname(i) for i in range(len(cat))])
     byname = dict(cat)
     dims = (("length", byname["length"]), ("time", byname["time"]))
+    near = near_catalogue(mods, tier)
+    if len(near) > len(cat):
+        check_names(mods, ["xl" + _dname(i) for i in range(len(near))] + ["xr" + _dname(i) for i in range(len(near))])
     out = []
     names = binary_keys(mods)
     quick = tier == "quick"
@@ -1459,6 +1609,8 @@ def cases(tier, mods):
             out.append(make_dims_case(name, cat, False))
             out.append(make_dims_case(name, cat, True))
             out.append(make_dims_twin_case(name, cat))
+            # near-miss dimension pairs (written as exponent vectors): call form, operator form in the thorough tier
+            out.append(make_dims_case(name, near, False, label="near", ops=not quick))
         elif name in FREE and name not in FREE_NOT_RUN:
             sh = [((2,), (2,))] if name in ("matmul", "vecdot") else [((), ()), ((2,), (2,))]
             for k0, k1 in (("same", "diffdim"), ("same", "bscalar"), ("barray", "diffdim"), ("same", "qlist_mixed"), ("diffdim", "percent"),
@@ -1556,6 +1708,9 @@ def cases(tier, mods):
         for as_string in (True, False):
             out.append(make_convert_case(entry, cat, as_string))
         out.append(make_convert_twin_case(entry, dims))
+        out.append(make_convert_case(entry, near, False, label="near-"))
+        if not quick or entry == "to":
+            out.append(make_convert_case(entry, near, True, label="near-"))
         # argument-form and history axes of the conversion entry points
         for k0, k1 in CONVERT_PAIRS[tier]:
             for as_string in (False, True):
@@ -1568,5 +1723,7 @@ def cases(tier, mods):
             for hist in HIST_CONVERT[tier]:
                 if hist_ok(hist, k0, k1):
                     out.append(make_convert_pair_case(entry, k0, k1, dims, history=hist))
+    out.append(make_setitem_dims_case(near, "item"))
+    out.append(make_setitem_dims_case(near, "slice_bcast"))
     out.append(make_unit_addsub_case(cat))
     return out
